@@ -11,6 +11,7 @@ import (
 	"github.com/kercylan98/vivid"
 	"github.com/kercylan98/vivid/internal/mailbox"
 	"github.com/kercylan98/vivid/internal/verifhook"
+	"github.com/kercylan98/vivid/pkg/log"
 	"github.com/kercylan98/vivid/verifharness/ctl"
 )
 
@@ -310,3 +311,5 @@ func runMailboxScenario(sc *mbScenario, schedule []mbStep, seed int64) *mbRun {
 	run.Handled = x.handled
 	return run
 }
+
+var silentLogger = log.NewSilentLogger()
